@@ -1,5 +1,6 @@
 """Per-property driver: VC generation from /repo's current tree, discharge (pool), replay of counter-models on
 the real code, bounded stand-ins, known findings, evidence, exit codes (DESIGN 2.8 / 3)."""
+import ast
 import sys, os, json, time, subprocess, importlib, re, traceback, hashlib
 from concurrent.futures import ProcessPoolExecutor
 import z3
@@ -41,7 +42,7 @@ def load_known(prop):
 
 def run_concrete_async(prop, tier, seed):
     os.makedirs(OUT, exist_ok=True)
-    outp = os.path.join(OUT, '%s.bounded.json' % prop)
+    outp = os.path.join(OUT, '%s.bounded.%d.json' % (prop, os.getpid()))      # per process: two runs of one property may overlap
     if os.path.exists(outp):
         os.unlink(outp)
     mod = os.path.join(VERIF, 'concrete', 'b%s.py' % prop[1:])
@@ -60,8 +61,8 @@ def run_concrete_cases(prop, items):
     if not items:
         return []
     os.makedirs(OUT, exist_ok=True)
-    fin = os.path.join(OUT, '%s.cases.in.json' % prop)
-    fout = os.path.join(OUT, '%s.cases.out.json' % prop)
+    fin = os.path.join(OUT, '%s.cases.in.%d.json' % (prop, os.getpid()))
+    fout = os.path.join(OUT, '%s.cases.out.%d.json' % (prop, os.getpid()))
     json.dump(items, open(fin, 'w'))
     env = dict(os.environ)
     env['PYTHONPATH'] = VERIF
@@ -69,7 +70,13 @@ def run_concrete_cases(prop, items):
     r = subprocess.run([VENV_PY, os.path.join(VERIF, 'concrete', 'run.py'), 'cases', prop, fin, fout], capture_output=True, text=True, env=env, cwd=VERIF)
     if r.returncode != 0:
         raise RuntimeError('concrete side crashed: ' + (r.stdout + r.stderr)[-1500:])
-    return json.load(open(fout))
+    res = json.load(open(fout))
+    for f_ in (fin, fout):
+        try:
+            os.unlink(f_)
+        except OSError:
+            pass
+    return res
 
 
 def model_inputs(model_text, mapping):
@@ -124,8 +131,96 @@ class LOb:
         self.uid = None
 
 
+class _Rename(ast.NodeTransformer):
+    """rename a program variable in a spec expression, except under old(...) (the entry value keeps its name)"""
+    def __init__(self, a, b):
+        self.a, self.b = a, b
+
+    def visit_Call(self, n):
+        if isinstance(n.func, ast.Name) and n.func.id == 'old':
+            return n
+        return self.generic_visit(n)
+
+    def visit_Name(self, n):
+        if n.id == self.a:
+            return ast.copy_location(ast.Name(id=self.b, ctx=n.ctx), n)
+        return n
+
+
+def rename_in_spec(expr, a, b):
+    return ast.unparse(_Rename(a, b).visit(ast.parse(expr.strip(), mode='eval')))
+
+
+def spec_names(expr):
+    """program-variable names a spec expression mentions outside old(...), without comprehension-bound names and called functions"""
+    tree = ast.parse(expr.strip(), mode='eval')
+    bound, called, names = set(), set(), set()
+
+    def walk(n):
+        if isinstance(n, ast.Call) and isinstance(n.func, ast.Name):
+            if n.func.id == 'old':
+                return
+            called.add(n.func.id)
+            for a in n.args:
+                walk(a)
+            return
+        if isinstance(n, ast.comprehension):
+            for t in ast.walk(n.target):
+                if isinstance(t, ast.Name):
+                    bound.add(t.id)
+        if isinstance(n, ast.Name):
+            names.add(n.id)
+        for ch in ast.iter_child_nodes(n):
+            walk(ch)
+    walk(tree)
+    return names - bound - called
+
+
+def repair_candidates(c):
+    """Loop invariants are proof hints written for the baseline text.  When a CHANGED function keeps its loops but carries the loop's result in a
+    differently named variable, the invariant still talks about the old one.  Candidates (stale, fresh): `stale` is mentioned by an invariant
+    of loop k but no longer assigned in loop k; `fresh` is assigned in loop k and unknown to its invariants.  Trying an invariant is always
+    sound: every obligation is regenerated and must be proved with it."""
+    try:
+        node = front.find_function(c.file, c.source or c.qual)[0]
+    except front.AttachError:
+        return []
+    loops = []
+
+    def collect(stmts):
+        for st_ in stmts:
+            if isinstance(st_, (ast.For, ast.While)):
+                loops.append(st_)
+            for f_ in ('body', 'orelse', 'finalbody', 'handlers'):
+                sub = getattr(st_, f_, None)
+                if isinstance(sub, list):
+                    collect([x for x in sub if isinstance(x, ast.stmt)] + [y for x in sub if isinstance(x, ast.ExceptHandler) for y in x.body])
+    collect(node.body)
+    pairs = []
+    for k, lc in c.loops.items():
+        if not isinstance(k, int) or k >= len(loops):
+            continue
+        invs = [e if isinstance(e, str) else e[1] for e in lc.get('invariant', [])]
+        if not invs:
+            continue
+        mentioned = set()
+        for e in invs:
+            try:
+                mentioned |= spec_names(e)
+            except SyntaxError:
+                return []
+        assigned = set(n.id for n in ast.walk(loops[k]) if isinstance(n, ast.Name) and isinstance(n.ctx, ast.Store))
+        stale = [v for v in sorted(mentioned) if v not in assigned and v not in ('self', 'result', 'G', lc.get('idx'))]
+        fresh = [v for v in sorted(assigned) if v not in mentioned and v != lc.get('idx')]
+        for a in stale:
+            for b in fresh:
+                if (a, b) not in pairs:
+                    pairs.append((a, b))
+    return pairs[:8]
+
+
 def gen_worker(arg):
-    prop, key, repo = arg
+    prop, key, repo = arg[:3]
     front.REPO = repo
     front._cache.clear()
     try:
@@ -135,6 +230,12 @@ def gen_worker(arg):
         except ModuleNotFoundError:
             pass
         c = REGISTRY[key]
+        if len(arg) > 3 and arg[3] == 'candidates':
+            return {'candidates': repair_candidates(c)}
+        if len(arg) > 3:
+            a_, b_ = arg[3]
+            for lc in c.loops.values():
+                lc['invariant'] = [rename_in_spec(e, a_, b_) if isinstance(e, str) else (e[0], rename_in_spec(e[1], a_, b_)) + tuple(e[2:]) for e in lc.get('invariant', [])]
         eng = Engine(os.path.join(VERIF, 'contracts', 'spec.py'))
         values.reset_names()
         try:
@@ -307,6 +408,59 @@ class Checker:
                     res['retried'] = True
                     self.results[name] = res
 
+        self.repair(timeout)
+
+    def repair(self, timeout):
+        """Proof repair on CHANGED functions (never on the baseline text): an obligation proved on the baseline text and not provable now may only
+        mean that the loop invariants (proof hints) name a variable the new text no longer uses.  Each candidate renaming is a complete new proof
+        attempt of the function (all obligations regenerated); the first one that discharges everything replaces the failed attempt."""
+        by_func = {}
+        for ob in self.obs:
+            if getattr(ob, 'preset', None) or ob.kind == 'frame':
+                continue
+            by_func.setdefault(ob.func, []).append(ob)
+        for func, obs in by_func.items():
+            if not self.function_changed(func):
+                continue
+            bad = [o for o in obs if o.kind != 'cover' and self.results[o.uid]['status'] != 'proved']
+            if not bad:
+                continue
+            key = tuple(func.split('::'))
+            c = REGISTRY.get(key)
+            if c is None or not c.loops:
+                continue
+            with ProcessPoolExecutor(max_workers=1) as ex:
+                cands = list(ex.map(gen_worker, [(self.prop, key, front.REPO, 'candidates')]))[0].get('candidates', [])
+            for a_, b_ in cands:
+                with ProcessPoolExecutor(max_workers=1) as ex:
+                    out = list(ex.map(gen_worker, [(self.prop, key, front.REPO, (a_, b_))]))[0]
+                if not out.get('obs'):
+                    continue
+                new = [LOb(d) for d in out['obs']]
+                items = [(j, o.smt2, o.kind == 'cover', timeout, getattr(o, 'focus', None)) for j, o in enumerate(new) if not o.trivial]
+                res = {j: {'status': 'proved', 'backend': 'trivial', 'secs': 0.0, 'n_inst': 0, 'model': None} for j, o in enumerate(new) if o.trivial}
+                with ProcessPoolExecutor(max_workers=min(16, max(1, len(items)))) as ex:
+                    for j, r in ex.map(solve.work, items, chunksize=1):
+                        res[j] = r
+                ok = all(res[j]['status'] == 'proved' for j, o in enumerate(new) if o.kind != 'cover') and \
+                    not any(res[j]['status'] in ('vacuous', 'error') for j, o in enumerate(new) if o.kind == 'cover' and not o.name.endswith('.before') and not o.name.endswith('.after'))
+                if not ok:
+                    continue
+                # replace the failed attempt by the repaired proof
+                keep = [o for o in self.obs if o.func != func or getattr(o, 'preset', None) or o.kind == 'frame']
+                kept_res = {id(o): self.results[o.uid] for o in keep}
+                new_res = {id(o): res[j] for j, o in enumerate(new)}
+                self.obs = keep + new
+                self.results = {}
+                for i, o in enumerate(self.obs):
+                    o.uid = i
+                    self.results[i] = kept_res.get(id(o)) or new_res[id(o)]
+                for f in self.functions:
+                    if f.get('function') == func:
+                        f['proof_repaired'] = 'loop invariants restated with `%s` in place of `%s` (the changed text carries the loop result in a renamed variable); all %d obligations regenerated and discharged' % (b_, a_, len(new))
+                self.repaired = getattr(self, 'repaired', []) + ['%s: invariants restated with `%s` for `%s`' % (func, b_, a_)]
+                break
+
     # -- verdicts -----------------------------------------------------------------------------------------
     def analyse(self, bounded):
         prop = self.prop
@@ -423,7 +577,7 @@ class Checker:
                 continue
             seen.add(key)
             n += 1
-            path = os.path.join('out', 'replay', '%s-%d.json' % (prop, n))
+            path = os.path.join('out', 'replay', '%s-%s-%d.json' % (prop, self.tier, n))
             json.dump({'property': prop, 'kind': 'concrete', 'case': v['case'], 'clause': v['clause'], 'input': v['input'],
                        'detail': v.get('detail'), 'obligation': v.get('obligation'), 'repo': front.REPO}, open(os.path.join(VERIF, path), 'w'), indent=1)
             self.violations.append({'replay': path, 'clause': v['clause'], 'case': v['case'], 'with_input': True, 'obligation': v.get('obligation')})
@@ -448,7 +602,7 @@ class Checker:
                 # an input violating the property on the real code was already found by this run; attach
                 continue
             n += 1
-            path = os.path.join('out', 'replay', '%s-%d.json' % (prop, n))
+            path = os.path.join('out', 'replay', '%s-%s-%d.json' % (prop, self.tier, n))
             json.dump({'property': prop, 'kind': 'obligation', 'obligation': name, 'function': obs[0].func,
                        'solver_output': [self.results[o.uid] for o in obs if self.results[o.uid]['status'] != 'proved'][:3],
                        'note': 'obligation not discharged; no failing input found by model replay or by the bounded search',
@@ -536,6 +690,10 @@ def check(prop, tier, seed):
             ck.problems.append('bounded stand-in crashed (harness problem, not a verdict): ' + (out or '')[-1500:])
         else:
             bounded = json.load(open(outp))
+            try:
+                os.unlink(outp)
+            except OSError:
+                pass
     try:
         ck.analyse(bounded)
     except Exception:
@@ -578,6 +736,8 @@ def check(prop, tier, seed):
         prop, tier, cov['obligations'], cov['discharged'], cov['path_vcs'], cov['backends'], cov.get('evaluations') if bounded else '-', len(ck.fallbacks), ev['wall_s']))
     for f in ck.fallbacks:
         print('  bounded-only (not proved): %s — %s' % (f['function'], f['reason']))
+    for r_ in getattr(ck, 'repaired', []):
+        print('  proof repaired on a changed function: %s' % r_)
     if ck.violations:
         for v in ck.violations:
             print('VIOLATION property=%s replay=%s%s' % (prop, v['replay'], '' if v['with_input'] else ' no-failing-input-found'))
